@@ -34,9 +34,155 @@ ORDERED_CONVERSIONS = {'list', 'tuple', 'sorted', 'enumerate', 'zip', 'reversed'
 RENDER_CALLS = {'str', 'repr', 'format', 'print'}
 
 
+def _alpha(node, setnames, localnames):
+    """the expression with every local name replaced by its ROLE and its order of first occurrence -- `S0, S1..` for set-typed locals,
+    `v0, v1..` for the other locals and parameters (an alpha-renaming that keeps the kind of each name)"""
+    import copy
+    n2 = copy.deepcopy(node)
+    ren = {}
+    names = [x for x in _preorder(n2) if isinstance(x, ast.Name)]
+    for x in names:
+        if x.id in setnames or x.id in localnames:
+            kind_ = 'S' if x.id in setnames else 'v'
+            if x.id not in ren:
+                ren[x.id] = '%s%d' % (kind_, sum(1 for r in ren.values() if r[0] == kind_))
+    for x in names:
+        x.id = ren.get(x.id, x.id)
+    return n2
+
+
+def _preorder(node):
+    yield node
+    for c in ast.iter_child_nodes(node):
+        yield from _preorder(c)
+
+
+def single_assignments(fn):
+    """{name: expression} for the locals of `fn` that are bound exactly once, by a plain `name = expression` statement (not a parameter,
+    not a loop / with / comprehension / walrus target, no augmented assignment, not declared global / nonlocal): naming a
+    sub-expression -- and that are used as plain values only: a name whose attributes are read or called (`seen.add(x)`,
+    `add = seen.add`) or that is subscripted may be an object that is modified between its creation and the use, and then the use
+    is not the defining expression (`seen = set(); ...; f(seen)` is not `f(set())`).  (Counted over the whole function text,
+    nested functions included: conservative.)"""
+    params = set()
+    if isinstance(fn, (ast.FunctionDef, ast.AsyncFunctionDef)):
+        a = fn.args
+        params = {x.arg for x in a.posonlyargs + a.args + a.kwonlyargs} | {x.arg for x in (a.vararg, a.kwarg) if x is not None}
+    stores, cand, banned = {}, {}, set(params)
+    for n in ast.walk(fn):
+        if isinstance(n, ast.Name) and isinstance(n.ctx, (ast.Store, ast.Del)):
+            stores[n.id] = stores.get(n.id, 0) + 1
+        elif isinstance(n, (ast.Global, ast.Nonlocal)):
+            banned.update(n.names)
+        elif isinstance(n, (ast.FunctionDef, ast.AsyncFunctionDef, ast.ClassDef)) and n is not fn:
+            banned.add(n.name)
+        elif isinstance(n, ast.arg) and n.arg not in params:
+            banned.add(n.arg)          # a parameter of a nested function / lambda
+        if isinstance(n, (ast.Attribute, ast.Subscript, ast.Starred)) and isinstance(n.value, ast.Name):
+            banned.add(n.value.id)
+        if isinstance(n, ast.Assign) and len(n.targets) == 1 and isinstance(n.targets[0], ast.Name):
+            cand[n.targets[0].id] = n.value
+    return {k: v for k, v in cand.items() if stores.get(k) == 1 and k not in banned}
+
+
+class _Subst(ast.NodeTransformer):
+    """replace the loads of single-assignment locals by their defining expression, and the calls of inlinable private helpers by the
+    helper's result expression (parameters replaced by the arguments)"""
+
+    def __init__(self, defs, helpers, depth=0, seen=()):
+        self.defs, self.helpers, self.depth, self.seen = defs, helpers or {}, depth, seen
+
+    def visit_Name(self, node):
+        import copy
+        if isinstance(node.ctx, ast.Load) and node.id in self.defs and node.id not in self.seen and self.depth < 8:
+            e = copy.deepcopy(self.defs[node.id])
+            return _Subst(self.defs, self.helpers, self.depth + 1, self.seen + (node.id,)).visit(e)
+        return node
+
+    def visit_Call(self, node):
+        import copy
+        self.generic_visit(node)
+        h = self.helpers.get(node.func.id) if isinstance(node.func, ast.Name) else None
+        if h is None or self.depth >= 8:
+            return node
+        binding = h.bind(node)
+        if binding is None:
+            return node
+        body = copy.deepcopy(h.result)
+        return _Subst(binding, {}, self.depth + 1).visit(body)
+
+
+class Helper:
+    """A private module-level function `def _h(p1, .., *, k1=d1): [name = e;]* return E` that is only ever CALLED, by functions of its own
+    module (scan_repo checks the whole package: no other reference to the name): wherever its result goes, it goes through one of
+    those callers.  For the scan the call `_h(a1, ..)` IS the expression E with the parameters replaced by the arguments: it is
+    set-typed iff E is, and a set built in `_h` leaves through the caller -- the site is the caller's, not the helper's."""
+
+    def __init__(self, fn):
+        import copy
+        self.fn = fn
+        self.ok = False
+        self.returns_set = False
+        a = fn.args
+        if fn.decorator_list or a.vararg or a.kwarg or a.posonlyargs or not fn.name.startswith('_') or fn.name.startswith('__'):
+            return
+        body = list(fn.body)
+        if body and isinstance(body[0], ast.Expr) and isinstance(body[0].value, ast.Constant) and isinstance(body[0].value.value, str):
+            body = body[1:]
+        if not body or not isinstance(body[-1], ast.Return) or body[-1].value is None:
+            return
+        defs = single_assignments(fn)
+        for st in body[:-1]:
+            if not (isinstance(st, ast.Assign) and len(st.targets) == 1 and isinstance(st.targets[0], ast.Name) and st.targets[0].id in defs):
+                return
+        for n in ast.walk(fn):
+            if isinstance(n, (ast.Yield, ast.YieldFrom, ast.Await, ast.Lambda, ast.NamedExpr)) or (isinstance(n, ast.Return) and n is not body[-1]):
+                return
+        self.params = [x.arg for x in a.args]
+        self.kwonly = [x.arg for x in a.kwonlyargs]
+        self.defaults = dict(zip(self.params[len(self.params) - len(a.defaults):], a.defaults))
+        self.defaults.update({x.arg: d for x, d in zip(a.kwonlyargs, a.kw_defaults) if d is not None})
+        self.result = _Subst(defs, {}).visit(copy.deepcopy(body[-1].value))
+        self.ok = True
+
+    def bind(self, call):
+        if any(isinstance(x, ast.Starred) for x in call.args) or any(k.arg is None for k in call.keywords) or len(call.args) > len(self.params):
+            return None
+        b = dict(zip(self.params, call.args))
+        for k in call.keywords:
+            if k.arg in b or k.arg not in self.params + self.kwonly:
+                return None
+            b[k.arg] = k.value
+        for nm in self.params + self.kwonly:
+            if nm not in b:
+                if nm not in self.defaults:
+                    return None
+                b[nm] = self.defaults[nm]
+        return b
+
+
+def _is_set_ctor(f):
+    return (isinstance(f, ast.Name) and f.id in SET_CALLS) or (isinstance(f, ast.IfExp) and (_is_set_ctor(f.body) or _is_set_ctor(f.orelse)))
+
+
 class Site:
-    def __init__(self, relpath, func, kind, node, src, setnames=(), localnames=()):
+    def __init__(self, relpath, func, kind, node, src, setnames=(), localnames=(), defs=None, helpers=None):
         self.relpath, self.func, self.kind = relpath, func, kind
+        # second normal form: single-assignment locals replaced by their defining expression and calls of inlinable private helpers by
+        # the helper's result expression, THEN the alpha-renaming -- insensitive to naming / un-naming a sub-expression and to moving a
+        # construction into a private helper: the same set-typed expression at the same position of the same consumer
+        try:
+            import copy
+            n3 = _Subst(defs or {}, helpers or {}).visit(copy.deepcopy(node))
+            ast.fix_missing_locations(n3)
+            v3 = getattr(n3, 'value', None)
+            if kind == 'escape' and isinstance(n3, ast.Return) and isinstance(v3, ast.Call) and not v3.keywords and _is_set_ctor(v3.func):
+                a3 = _alpha(ast.Tuple(elts=list(v3.args), ctx=ast.Load()), setnames, localnames)
+                self.norm2 = ('return <new set of> ' + ', '.join(' '.join(ast.unparse(x).split()) for x in a3.elts))[:240]
+            else:
+                self.norm2 = ' '.join(ast.unparse(_alpha(n3, setnames, localnames)).split())[:240]
+        except Exception:
+            self.norm2 = None
         self.text = ' '.join((ast.get_source_segment(src, node) or ast.dump(node)).split())[:160]
         # normal form: the same expression with every local name replaced by its ROLE and its order of first occurrence -- `S0, S1..`
         # for set-typed locals, `v0, v1..` for the other locals and parameters (an alpha-renaming that keeps the kind of each name);
@@ -70,13 +216,18 @@ class Site:
     def norm_key(self):
         return '%s:%s:%s:%s' % (self.relpath, self.func, self.kind, self.norm)
 
+    def norm2_key(self):
+        return None if self.norm2 is None else '%s:%s:%s:%s' % (self.relpath, self.func, self.kind, self.norm2)
+
     def __repr__(self):
         return self.key()
 
 
 class FuncScan(ast.NodeVisitor):
-    def __init__(self, relpath, qual, fn, src, sites):
+    def __init__(self, relpath, qual, fn, src, sites, helpers=None):
         self.relpath, self.qual, self.src, self.sites = relpath, qual, src, sites
+        self.helpers = helpers or {}          # inlinable private helpers of the module (Helper), by name
+        self.defs = single_assignments(fn)
         self.setnames = set()
         # local aliases of the set constructors: `cls = frozenset if as_set else tuple` -> cls(...) may build a set
         self.ctor_aliases = set()
@@ -103,8 +254,12 @@ class FuncScan(ast.NodeVisitor):
         if isinstance(e, ast.Call):
             if isinstance(e.func, ast.Name) and (e.func.id in SET_CALLS or e.func.id in self.ctor_aliases):
                 return True
+            if isinstance(e.func, ast.IfExp) and _is_set_ctor(e.func):
+                return True           # (frozenset if c else tuple)(...): may build a set
             if isinstance(e.func, ast.Attribute) and e.func.attr in SETLIKE_RESULT_METHODS and self.is_set(e.func.value):
                 return True
+            if isinstance(e.func, ast.Name) and e.func.id in self.helpers and self.helpers[e.func.id].returns_set:
+                return True           # the call of an inlinable private helper whose result expression is set-typed
         if isinstance(e, ast.Name) and e.id in self.setnames:
             return True
         if isinstance(e, ast.Attribute) and e.attr in SET_ATTRS:
@@ -126,7 +281,8 @@ class FuncScan(ast.NodeVisitor):
         for n in ast.walk(fn):
             if isinstance(n, ast.Name) and isinstance(n.ctx, (ast.Store, ast.Del)):
                 local.add(n.id)
-        self.sites.append(Site(self.relpath, self.qual, kind, node, self.src, setnames=self.setnames, localnames=local))
+        self.sites.append(Site(self.relpath, self.qual, kind, node, self.src, setnames=self.setnames, localnames=local,
+                               defs=self.defs, helpers=self.helpers))
 
     def scan(self):
         fn = self.fn
@@ -185,6 +341,11 @@ class FuncScan(ast.NodeVisitor):
             if isinstance(node, ast.AugAssign) and isinstance(node.op, ast.BitOr) and self.is_set(node.value) and not self.is_set(node.target):
                 self.report('merge', node)
             if isinstance(node, (ast.Return, ast.Yield)) and node.value is not None and self.is_set(node.value):
+                h = self.helpers.get(getattr(fn, 'name', None))
+                if h is not None and h.fn is fn and isinstance(node, ast.Return) and h.returns_set:
+                    # the result of an inlinable private helper leaves through its callers, where the call expression is set-typed
+                    # (returns_set): the site is theirs (Helper) -- never dropped unless the callers see a set
+                    continue
                 self.report('escape', node)
             if isinstance(node, ast.Assign) and self.is_set(node.value):
                 for t in node.targets:
@@ -218,7 +379,70 @@ def scan_sources(rel, tree, src, sites):
             sites.append(Site(rel, '<attr>', 'nondet-source', node, src))
 
 
-def scan_repo(repo):
+def find_helpers(trees):
+    """{relpath: {name: Helper}}: the private module-level functions of the straight-line shape (Helper) that are referenced nowhere in
+    the package except as the callee of direct calls in their own module"""
+    cands = {}
+    for rel, tree in trees.items():
+        for st in tree.body:
+            if isinstance(st, ast.FunctionDef):
+                h = Helper(st)
+                if h.ok and sum(1 for x in tree.body if isinstance(x, (ast.FunctionDef, ast.ClassDef)) and x.name == st.name) == 1:
+                    cands.setdefault(rel, {})[st.name] = h
+    names = {nm for d in cands.values() for nm in d}
+    if not names:
+        return {}
+    bad = set()
+    for rel, tree in trees.items():
+        callee = {id(n.func) for n in ast.walk(tree) if isinstance(n, ast.Call)}
+        for n in ast.walk(tree):
+            if isinstance(n, ast.Name) and n.id in names:
+                if not (id(n) in callee and isinstance(n.ctx, ast.Load) and n.id in cands.get(rel, {})):
+                    bad.add(n.id)
+            elif isinstance(n, ast.Attribute) and n.attr in names:
+                bad.add(n.attr)
+            elif isinstance(n, (ast.Import, ast.ImportFrom)):
+                bad.update(al.name.split('.')[-1] for al in n.names if al.name.split('.')[-1] in names)
+                bad.update(al.asname for al in n.names if al.asname in names)
+            elif isinstance(n, ast.Constant) and isinstance(n.value, str) and n.value in names:
+                bad.add(n.value)
+            elif isinstance(n, (ast.Global, ast.Nonlocal)):
+                bad.update(x for x in n.names if x in names)
+            elif isinstance(n, ast.arg) and n.arg in names:
+                bad.add(n.arg)
+    out = {}
+    for rel, d in cands.items():
+        keep = {nm: h for nm, h in d.items() if nm not in bad}
+        for nm, h in keep.items():
+            # is the result expression set-typed? (judged in the helper's own text, its parameters being no sets)
+            h.returns_set = FuncScan(rel, nm, h.fn, '', [], helpers={k: v for k, v in keep.items() if k != nm}).is_set(h.result)
+        if keep:
+            out[rel] = keep
+    return out
+
+
+def only_called(owner, nested):
+    """every reference to the nested function's name in the text of the enclosing function `owner` is the callee of a direct call
+    (and the name is bound by that one definition only)"""
+    name = nested.name
+    callee = {id(n.func) for n in ast.walk(owner) if isinstance(n, ast.Call)}
+    a = owner.args
+    if name in {x.arg for x in a.posonlyargs + a.args + a.kwonlyargs} | {x.arg for x in (a.vararg, a.kwarg) if x is not None}:
+        return False
+    for n in ast.walk(owner):
+        if isinstance(n, (ast.FunctionDef, ast.AsyncFunctionDef, ast.ClassDef)) and n is not nested and n is not owner and n.name == name:
+            return False
+        if isinstance(n, ast.Name) and n.id == name and not (isinstance(n.ctx, ast.Load) and id(n) in callee):
+            return False
+        if isinstance(n, (ast.Global, ast.Nonlocal)) and name in n.names:
+            return False
+        if isinstance(n, ast.arg) and n.arg == name:
+            return False
+    return True
+
+
+def scan_repo(repo, overrides=None):
+    """overrides: {relpath: source text} replaces files in memory (self-test of the scan only)"""
     sites = []
     files = []
     root = os.path.join(repo, 'concepts')
@@ -226,32 +450,170 @@ def scan_repo(repo):
         for f in sorted(fns):
             if f.endswith('.py'):
                 files.append(os.path.join(dp, f))
+    sources, trees = {}, {}
     for path in sorted(files):
         rel = os.path.relpath(path, repo)
-        with open(path, encoding='utf-8') as fh:
-            src = fh.read()
-        tree = ast.parse(src)
+        if overrides and rel in overrides:
+            sources[rel] = overrides[rel]
+        else:
+            with open(path, encoding='utf-8') as fh:
+                sources[rel] = fh.read()
+        trees[rel] = ast.parse(sources[rel])
+    helpers_of = find_helpers(trees)
+    for path in sorted(files):
+        rel = os.path.relpath(path, repo)
+        src, tree = sources[rel], trees[rel]
+        helpers = helpers_of.get(rel, {})
 
-        def walk(node, prefix):
+        def walk(node, prefix, owner=None, owner_q=None):
             for child in ast.iter_child_nodes(node):
                 if isinstance(child, (ast.FunctionDef, ast.AsyncFunctionDef)):
                     q = prefix + child.name
-                    FuncScan(rel, q, child, src, sites).scan()
-                    walk(child, q + '.<locals>.')
+                    # a nested function that its enclosing function only CALLS (never returns, stores or hands on) runs as part of that
+                    # function and nowhere else: its sites are sites of the enclosing function
+                    site_q = owner_q if owner is not None and only_called(owner, child) else q
+                    FuncScan(rel, site_q, child, src, sites, helpers).scan()
+                    walk(child, q + '.<locals>.', child, site_q)
                 elif isinstance(child, ast.ClassDef):
                     walk(child, prefix + child.name + '.')
                 elif isinstance(child, (ast.If, ast.Try, ast.With, ast.For, ast.While)):
-                    walk(child, prefix)
+                    walk(child, prefix, owner, owner_q)
         walk(tree, '')
         # module level statements as pseudo function
         mod = ast.Module(body=[s for s in tree.body if not isinstance(s, (ast.FunctionDef, ast.ClassDef))], type_ignores=[])
-        FuncScan(rel, '<module>', mod, src, sites).scan()
+        FuncScan(rel, '<module>', mod, src, sites, helpers).scan()
         scan_sources(rel, tree, src, sites)
     return sites, len(files)
 
 
+# ---------------------------------------------------------------------------------------------
+# self-test of the scan: variants of the real source (in memory) with the verdict the allowlist must give
+#   'quiet'     every site of the variant is accepted (by its text or one of its normal forms)
+#   'reported'  at least one site of the variant is on no list -- an ungenerated `order-indep` obligation
+
+_DF, _CM, _LT = 'concepts/definitions.py', 'concepts/_common.py', 'concepts/lattices.py'
+_INV_OLD = ("        pairs = self._pairs\n        return self._fromargs(self._objects.copy(), self._properties.copy(),\n"
+            "                              {(o, p) for o in self._objects for p in self._properties\n"
+            "                               if (o, p) not in pairs})\n")
+
+
+def _inv(objects="self._objects.copy()", properties="self._properties.copy()", cond="(o, p) not in pairs", between="",
+         ret="self._fromargs(objects, properties, inverted_pairs)"):
+    """TransformableMixin.inverted with its three arguments named first (seeded/refactorings/R20-R5.diff)"""
+    return ("        pairs = self._pairs\n        objects = %s\n        properties = %s\n"
+            "        inverted_pairs = {(o, p) for o in self._objects for p in self._properties\n                          if %s}\n%s"
+            "        return %s\n" % (objects, properties, cond, between, ret))
+
+
+_IDX_OLD = ("    def extent_index_set(self, *, as_set: bool = False):\n        cls = frozenset if as_set else tuple\n"
+            "        return cls(self.extent.iter_set())\n\n    def intent_index_set(self, *, as_set: bool = False):\n"
+            "        cls = frozenset if as_set else tuple\n        return cls(self.intent.iter_set())\n")
+_IDX_HELPER = ("def _index_set(vector, *, as_set: bool):\n    cls = frozenset if as_set else tuple\n    return cls(vector.iter_set())\n\n\n")
+
+
+def _idx(helper=_IDX_HELPER, name='_index_set', ext="return _index_set(self.extent, as_set=as_set)",
+         int_="return _index_set(self.intent, as_set=as_set)", extra=""):
+    """_common.py with the construction of the index tuple / frozenset in a module-level helper (seeded/refactorings/R19-R2.diff);
+    the helper is put in front of `class Concept`"""
+    body = ("    def extent_index_set(self, *, as_set: bool = False):\n        %s\n\n"
+            "    def intent_index_set(self, *, as_set: bool = False):\n        %s\n" % (ext, int_))
+    import re
+    ren = lambda t: re.sub(r'(?<![A-Za-z])_index_set\(', name + '(', t)
+    return ren(helper), ren(body), extra
+
+
+_ANN_OLD = ("        touched = set()\n        for o in context.objects:\n            extent = context.extension(context.intension([o]), raw=True)\n"
+            "            c = mapping[extent]\n            if c.objects:\n                c.objects.append(o)\n            else:\n"
+            "                c.objects = [o]\n                touched.add(c)\n\n        for c in touched:\n            c.objects = tuple(c.objects)\n\n"
+            "        touched = set()\n        for p in context.properties:\n            extent = context.extension([p], raw=True)\n"
+            "            c = mapping[extent]\n            if c.properties:\n                c.properties.append(p)\n            else:\n"
+            "                c.properties = [p]\n                touched.add(c)\n\n        for c in touched:\n            c.properties = tuple(c.properties)\n")
+
+
+def _ann(tail=""):
+    """Data._annotate with the two passes as two calls of one nested function (seeded/refactorings/R17-R1.diff)"""
+    return ("        def annotate(attname, labels, get_extent):\n            touched = set()\n            for label in labels:\n"
+            "                c = mapping[get_extent(label)]\n                if getattr(c, attname):\n                    getattr(c, attname).append(label)\n"
+            "                else:\n                    setattr(c, attname, [label])\n                    touched.add(c)\n"
+            "            for c in touched:\n                setattr(c, attname, tuple(getattr(c, attname)))\n"
+            "        annotate('objects', context.objects,\n                 lambda o: context.extension(context.intension([o]), raw=True))\n"
+            "        annotate('properties', context.properties,\n                 lambda p: context.extension([p], raw=True))\n" + tail)
+
+
+def _variants():
+    out = [
+        # naming / un-naming a sub-expression (R20-R5): the same set expression at the same position of the same consumer
+        (_DF, [(_INV_OLD, _inv())], 'quiet'),
+        (_DF, [(_INV_OLD, _INV_OLD.replace("        pairs = self._pairs\n", "").replace("not in pairs", "not in self._pairs"))], 'quiet'),
+        (_DF, [(_INV_OLD, _inv(ret="self._fromargs(properties, objects, inverted_pairs)"))], 'reported'),          # swapped positions
+        (_DF, [(_INV_OLD, _inv(ret="self._fromargs(inverted_pairs, properties, objects)"))], 'reported'),          # the set at another position
+        (_DF, [(_INV_OLD, _inv(ret="self._fromother(objects, properties, inverted_pairs)"))], 'reported'),         # another consumer
+        (_DF, [(_INV_OLD, _inv(ret="self._fromargs(objects, properties, list(inverted_pairs))"))], 'reported'),    # converted on the way
+        (_DF, [(_INV_OLD, _inv(cond="(o, p) in pairs"))], 'reported'),                                             # another set expression
+        (_DF, [(_INV_OLD, _inv(objects="self._properties.copy()"))], 'reported'),                                  # another expression under the name
+        (_DF, [(_INV_OLD, _inv(between="        inverted_pairs.discard(None)\n"))], 'reported'),                   # the named set is touched before it is passed
+        (_DF, [(_INV_OLD, _inv(between="        for pair in inverted_pairs:\n            print(pair)\n"))], 'reported'),      # ... or iterated
+        (_DF, [(_INV_OLD, _inv(between="        inverted_pairs = set(inverted_pairs)\n"))], 'reported'),           # bound twice: not the defining expression
+    ]
+    # a construction moved into a private helper that is only called from its own module (R19-R2): the site is the caller's
+    def idx(expect, marker="class Concept(typing.NamedTuple):", **kw):
+        helper, body, extra = _idx(**kw)
+        return (_CM, [(_IDX_OLD, body), (marker, helper + marker), ("class ConceptList(list):", extra + "class ConceptList(list):")], expect)
+    out += [
+        idx('quiet'),
+        idx('reported', ext="return _index_set(self.intent, as_set=as_set)"),                      # another vector leaves through this function
+        idx('reported', helper=_IDX_HELPER.replace("cls(vector.iter_set())", "cls(vector)")),      # the helper builds the set from something else
+        idx('reported', ext="return list(_index_set(self.extent, as_set=as_set))"),                # the caller converts the result
+        idx('reported', ext="return sorted(_index_set(self.extent, as_set=as_set))"),
+        idx('reported', name='index_set'),                                                         # a public helper: anyone may call it
+        idx('reported', extra="index_set_of = _index_set\n\n\n"),                                  # the helper is handed on: not only called
+        idx('reported', helper=_IDX_HELPER.replace("    return cls(vector.iter_set())", "    if as_set:\n        return set(vector.iter_set())\n    return cls(vector.iter_set())")),
+    ]
+    # sites inside a nested function that its enclosing function only calls (R17-R1) are sites of the enclosing function
+    out += [
+        (_LT, [(_ANN_OLD, _ann())], 'quiet'),
+        (_LT, [(_ANN_OLD, _ann(tail="        return annotate\n"))], 'reported'),                   # the nested function escapes
+        (_LT, [(_ANN_OLD, _ann(tail="        context.hook = annotate\n"))], 'reported'),
+        (_LT, [(_ANN_OLD, _ann().replace("            for c in touched:\n", "            for c in list(touched):\n"))], 'reported'),
+    ]
+    return out
+
+
+def selftest(repo='/repo', verbose=False):
+    """-> (number of variants that applied, [wrong verdicts])"""
+    import json
+    with open(os.path.join(os.path.dirname(os.path.dirname(os.path.abspath(__file__))), 'checks', 'order_sites.json')) as fh:
+        listed = json.load(fh)['sites']
+    A, N1, N2 = {x['site'] for x in listed}, {x.get('norm') for x in listed}, {x.get('norm2') for x in listed}
+    n, wrong = 0, []
+    for rel, edits, expect in _variants():
+        with open(os.path.join(repo, rel), encoding='utf-8') as fh:
+            src = fh.read()
+        if any(src.count(old) != 1 for old, _ in edits):
+            continue                   # the source has changed: the variant does not apply
+        for old, new in edits:
+            src = src.replace(old, new, 1)
+        n += 1
+        try:
+            sites, _ = scan_repo(repo, overrides={rel: src})
+        except SyntaxError as e:
+            wrong.append(('variant does not parse', rel, str(e)))
+            continue
+        rep = [s_.key() for s_ in sites if not (s_.key() in A or s_.norm_key() in N1 or s_.norm2_key() in N2)]
+        ok = bool(rep) == (expect == 'reported')
+        if verbose:
+            print('%-6s %-8s %s %s' % ('ok' if ok else 'WRONG', expect, edits[0][1][:70].replace('\n', ' '), rep[:1]))
+        if not ok:
+            wrong.append((expect, rel, edits[0][1][:80], rep[:2]))
+    return n, wrong
+
+
 if __name__ == '__main__':
     import sys
+    if len(sys.argv) > 1 and sys.argv[1] == '--selftest':
+        n_, wrong_ = selftest(sys.argv[2] if len(sys.argv) > 2 else '/repo', verbose=True)
+        print(n_, 'scan variants;', len(wrong_), 'wrong')
+        sys.exit(1 if wrong_ else 0)
     if len(sys.argv) > 1 and sys.argv[1] == '--write-norms':
         # maintainer only, on the UNCHANGED tree: record the normal form of every allowlisted site next to its text
         import json
@@ -259,12 +621,15 @@ if __name__ == '__main__':
         with open(p) as fh:
             doc = json.load(fh)
         sites, n = scan_repo(sys.argv[2] if len(sys.argv) > 2 else '/repo')
-        norms = {}
+        norms, norms2 = {}, {}
         for s in sites:
             norms.setdefault(s.key(), s.norm_key())
+            norms2.setdefault(s.key(), s.norm2_key())
         for entry in doc['sites']:
             if entry['site'] in norms:
                 entry['norm'] = norms[entry['site']]
+                if norms2[entry['site']]:
+                    entry['norm2'] = norms2[entry['site']]
         with open(p, 'w') as fh:
             json.dump(doc, fh, indent=1)
             fh.write('\n')
